@@ -162,11 +162,17 @@ func BuildRequest(universe []*corpus.File, toGen []string, param string) *plugin
 
 // RunPlugin executes the plugin in a fresh process.
 func RunPlugin(plugin string, req *pluginpb.CodeGeneratorRequest, env []string) (*pluginpb.CodeGeneratorResponse, string, error) {
+	return RunPluginIn(plugin, req, env, "")
+}
+
+// RunPluginIn runs the plugin with the given working directory ("" = the caller's).
+func RunPluginIn(plugin string, req *pluginpb.CodeGeneratorRequest, env []string, dir string) (*pluginpb.CodeGeneratorResponse, string, error) {
 	in, err := proto.Marshal(req)
 	if err != nil {
 		die("marshal request: %v", err)
 	}
 	cmd := exec.Command(plugin)
+	cmd.Dir = dir
 	cmd.Stdin = bytes.NewReader(in)
 	var out, errb bytes.Buffer
 	cmd.Stdout = &out
